@@ -26,5 +26,6 @@ for id in $ids; do
   git -C /repo checkout -- .
 done
 (cd harness && CARGO_NET_OFFLINE=true cargo build --offline --release 2>&1 | tail -1)
+python3 /verif/tools/codegen.py >/dev/null
 git -C /repo status --short | head
 sort -o "$out" "$out"
